@@ -40,10 +40,16 @@ def _(fh: "file", xorkey: "bytes"):
         decreases=len(F) - offset)
     local(settings="list[any]")
     ghost(loop_head=0, do=[let("y0", yielded), let("go0", guard_offsets(F, K, offset))])
+    ghost(before="guard_config_offset = offset + 6", do=[assert_(guard_marker(F, offset, K))])
     ghost(before="offset += 1", do=[
+        when(not (xor(a[::-1], b) in xorred_guardconfig_starts), [assert_(not guard_marker(F, offset, K))]),
         assert_(guard_offsets(F, K, offset + 1) == go0 + ([offset] if len(yielded) > len(y0) else [])),
         assert_(forall(lambda j: guard_offsets(F, K, offset + 1)[j] == go0[j], 0, len(go0))),
         when(len(yielded) > len(y0), [guard_items_snoc(F, K, go0, guard_offsets(F, K, offset + 1), y0, yielded, offset)])])
+    ghost(after="unmasked_guard_config = xor(xor(masked_guard_config, masked_beacon_config[::-1]), xorkey)", do=[
+        assert_(len(unmasked_guard_config) == len(masked_guard_config)),
+        assert_(forall(lambda i: unmasked_guard_config[i] == bxor(bxor(masked_guard_config[i], masked_beacon_config[6143 - i]), K),
+                       0, len(masked_guard_config)))])
     ghost(before="yield GuardrailMetadata(...", do=[let("y_old", yielded)])
     ghost(after="yield GuardrailMetadata(...", do=[
         assert_(len(yielded) == len(y_old) + 1),
